@@ -10,7 +10,7 @@ use fastrace::collector::{EventRecord, Reporter, SpanRecord};
 use fastrace::prelude::*;
 use fastrace_jaeger::JaegerReporter;
 
-use crate::rng::{hex_bytes, unhex, Rng};
+use crate::rng::{end_after_hang, guarded, Outcome, hex_bytes, unhex, Rng};
 
 fn rand_string(r: &mut Rng, max: usize) -> String {
     let n = match r.below(10) {
@@ -266,13 +266,19 @@ fn run_case(agent: &Agent, service: &str, batch: Vec<SpanRecord>, out: &mut dyn 
         line.push_str(&fmt_record(r));
     }
     let addr = agent.sock.local_addr().unwrap();
-    let res = catch_unwind(AssertUnwindSafe(|| {
-        let mut rep = JaegerReporter::new(addr, service.to_string()).expect("reporter");
+    let svc = service.to_string();
+    let res = guarded(move || {
+        let mut rep = JaegerReporter::new(addr, svc).expect("reporter");
         rep.report(batch);
-    }));
+    }, 20);
+    if matches!(res, Outcome::Hung) {
+        let _ = writeln!(out, "{} => hang", line);
+        end_after_hang(out);
+    }
     let dgs = agent.drain();
-    let mut rhs = if res.is_err() { "panic".to_string() } else { format!("{}", dgs.len()) };
-    if res.is_ok() {
+    let ok = matches!(res, Outcome::Done);
+    let mut rhs = if !ok { "panic".to_string() } else { format!("{}", dgs.len()) };
+    if ok {
         for d in &dgs {
             rhs.push(' ');
             rhs.push_str(&hex_bytes(d));
